@@ -252,6 +252,29 @@ def run(chk):
                 hviol += 1
                 chk.violation('history', f'a query changed the caller\'s {kind}: {before} -> {after}', {'shape': kind, 'history': trail})
     chk.notes['histories'] = nhist
+    # results are the caller's own: editing a returned set must not change any later answer
+    rviol = 0
+    for h in range(40 if not full else 400):
+        r = chk.rng
+        trail = []
+        for step in range(r.randint(3, 8)):
+            q = by_name[r.choice(names)]
+            fn = r.choice(['nodes', 'children', 'leaves', 'valid'])
+            try:
+                res = getattr(TC, fn)(q) if fn != 'valid' else TC.valid(include={q})
+                if isinstance(res, set):
+                    r.choice([lambda: res.add(by_name[r.choice(names)]), res.clear, lambda: res.update(cats[:3])])()
+            except Exception:
+                pass
+            trail.append((fn, q.name))
+            q2 = by_name[r.choice(names)]
+            chk.case(('own-result', h, step, q2.name), kind='own-result')
+            got = (names_of(TC.nodes(q2)), names_of(TC.children(q2)), names_of(TC.leaves(q2)), names_of(TC.valid(include={q2})))
+            want = (desc[q2.name] - {q2.name}, kids[q2.name], {d for d in desc[q2.name] - {q2.name} if not kids[d]}, desc[q2.name])
+            if got != want and rviol < 10:
+                rviol += 1
+                chk.violation('history', f'after the caller edited the sets returned by {trail}, nodes / children / leaves / valid of {q2.name} are '
+                              f'{[sorted(x) for x in got]}, documented {[sorted(x) for x in want]}', {'history': trail, 'category': q2.name})
     chk.sample({'include': cases[-1][0], 'exclude': cases[-1][1], 'shape': cases[-1][2], 'valid|match bits': cases[-1][3]})
     chk.traces_validated = chk.evaluations
     chk.disagreements_checked = len(chk.broken)
